@@ -200,6 +200,8 @@ pub enum Op
     SSet(u8, u8, u32),
     SNo(u8, u8, u32),
     DespSys(u8),
+    /// drop the `AutoDespawnSignal` of a system spawned with `spawn_rc_system_command`
+    RcDrop(u8),
     /// mode, system, bundle, token id (0 = none)
     Reg(String, u8, Vec<Trig>, u32),
     Once(u8, Vec<Trig>, u32),
@@ -256,6 +258,7 @@ impl Op
             "sset" => Op::SSet(n8(1), n8(2), n32(3)),
             "sno" => Op::SNo(n8(1), n8(2), n32(3)),
             "despsys" => Op::DespSys(n8(1)),
+            "rcdrop" => Op::RcDrop(n8(1)),
             "reg" => Op::Reg(a[1].as_str().unwrap().to_string(), n8(2), bundle_from(&a[3]), n32(4)),
             "once" => Op::Once(n8(1), bundle_from(&a[2]), n32(3)),
             "on" => Op::On(a[1].as_str().unwrap().to_string(), n8(2), bundle_from(&a[3]), n32(4)),
@@ -302,6 +305,7 @@ impl Op
             Op::SSet(e, c, v) => json!(["sset", e, c, v]),
             Op::SNo(e, c, v) => json!(["sno", e, c, v]),
             Op::DespSys(s) => json!(["despsys", s]),
+            Op::RcDrop(s) => json!(["rcdrop", s]),
             Op::Reg(m, s, b, k) => json!(["reg", m, s, bundle_to(b), k]),
             Op::Once(s, b, k) => json!(["once", s, bundle_to(b), k]),
             Op::On(m, s, b, k) => json!(["on", m, s, bundle_to(b), k]),
@@ -407,6 +411,8 @@ pub struct Config
     pub hier: usize,
     /// Reactors added at start-up with `App::add_reactor` (one persistent bundle each); their systems come after the world reactors.
     pub app: Vec<Vec<Trig>>,
+    /// Pre-spawned systems created with `spawn_rc_system_command` (the harness holds their signal).
+    pub rcsys: Vec<usize>,
 }
 
 impl Config
@@ -422,12 +428,13 @@ impl Config
             neworld: v["neworld"].as_u64().unwrap_or(0) as usize,
             hier: v["hier"].as_u64().unwrap_or(0) as usize,
             app: v["app"].as_array().map(|a| a.iter().map(bundle_from).collect()).unwrap_or_default(),
+            rcsys: v["rcsys"].as_array().map(|a| a.iter().map(|x| x.as_u64().unwrap() as usize).collect()).unwrap_or_default(),
         }
     }
     pub fn to_json(&self) -> Value
     {
         json!({"kinds": self.kinds, "nonce": self.nonce, "nent": self.nent, "nworld": self.nworld, "neworld": self.neworld, "hier": self.hier,
-               "app": self.app.iter().map(|b| bundle_to(b)).collect::<Vec<_>>()})
+               "app": self.app.iter().map(|b| bundle_to(b)).collect::<Vec<_>>(), "rcsys": self.rcsys})
     }
     pub fn nsys(&self) -> usize { self.kinds.len() }
 }
